@@ -139,6 +139,23 @@ check('C18', 'exploration',
       "Handlers are distinct function literals (closures of one literal share a code pointer); for a handler registered k times the model accepts 'all removed' or 'one per naming'; 15 s watchdog for absence verdicts; porcupine v1.3.0.",
       "model-based lock-step (random + bounded-exhaustive) + API-level monitoring with real occurrences + counters/porcupine under concurrency", "DESIGN.md §3 C18")
 
+check('C08', 'exploration',
+      "Adapter level: the real session-aware adapter (window and clean-up period through a verif constructor, clean-up passes counted by a hook) driven with generated histories of namespace / room-with-exclusions / "
+      "direct broadcasts (text, binary, ack-carrying) over 3 sessions x 3 rooms, disconnect at every point k, clean-up period {off, 2 ms, 10 ms}, reconnect gap on both sides of the window; RestoreSession compared "
+      "with an executable model of the log (missed list, identity, replayed frames re-encoded and decoded by the reference codec). End to end: raw protocol peer tracking the offset itself, and the real Go client "
+      "reconnecting through a TCP proxy cut (recovered flag on both sides, exactly-once across the reconnect).",
+      "Time is bracketed: must-recover only when an upper bound of the elapsed time is inside the window and the offset entry is provably unexpired (or the cleaner is off), must-not only when a lower bound is outside. Binary leaves nested in maps / behind pointers inside logged packets are not exercised (C09 known finding).",
+      "reference model of the recovery log + bracketed time + hook-counted clean-up passes; raw wire observer", "DESIGN.md §3 C08")
+
+check('C15', 'fault_enumeration',
+      "Back-off function over the full (min, max incl. max<min, jitter incl. out of range, attempt incl. overflowing) grid with 50/200 draws per jittered cell and 80-step sequences; real Managers against an "
+      "independent raw Engine.IO/Socket.IO server behind a killable listener, enumerating outage kind {connection refused, accept+reset, HTTP 503, accept+stall-then-heal} x pattern {down for good, down at first "
+      "connect, down for j failures then restored, flapping} x ReconnectionAttempts 0..5 x jitter x transports: exact event counts (attempts == limit, reconnect_failed once, nothing afterwards), announced delays "
+      "against min(max, min*2^n*(1+-j)), cumulative lower and per-gap upper clock brackets; offline emits (non-volatile / volatile / ack-carrying, 1..3 namespaces) issued at stable offline points and observed on "
+      "the raw server's wire with a delayed CONNECT reply: exactly once, in order, after the namespace was accepted, volatile never; forced window H5.",
+      "Lifecycle handlers run asynchronously, so only counts, cumulative lower bounds from a synchronous start stamp and canary-gated upper bounds are verdicts; 'never reconnected' only >= 15 s after restore with attempts stopped.",
+      "fault-pattern enumeration over a killable-listener rig; event-count and wire-log monitors; reference back-off model; jitter canary; hook H5", "DESIGN.md §3 C15")
+
 for pid in ['C01','C02','C03','C04','C05','C06','C07','C08','C10','C11','C12','C13','C14','C15','C16','C17','C18','C19']:
     if pid not in P:
         na(pid, "check not built yet in this round (planned, see DESIGN.md §3); not claimed until its monitor runs clean on the unchanged tree")
